@@ -496,6 +496,54 @@ def _is_access(tm, t):
     return T.canon(a) == ("p", "access")
 
 
+def r_reserve_fallthrough(rep, prog):
+    """search_and_reserve (and the slot-less branch of get) report out-of-memory only after the *global* search - the
+    search_best over all trees, offset 0 - has run and failed; the near search is only a shortcut."""
+    rule = "R-GLOBAL-SEARCH-DOMAIN"
+    fn = "llfree::llfree::LLFree::search_and_reserve"
+    b = lib.need_body(prog, fn)
+    rep.saw(fn)
+    tm = T.Terms(b, prog)
+    glob = []
+    for bi, t in b.calls_to(SEARCH_BEST):
+        a = [tm.operand(x) for x in t["args"]]
+        if T.const_val(a[2]) == 0 and a[3][0] == "call" and a[3][1] in ("llfree::trees::Trees::len", "slice::len"):
+            glob.append(bi)
+    if len(glob) != 1:
+        rep.violation(rule, "search_and_reserve|global-search", "expected one search_best(_, 0, trees.len(), ..) in search_and_reserve, found %d" % len(glob), b.span)
+        return
+    ps = PathSens(b, prog)
+    mem = [v["discr"] for v in prog.crate("llfree").adts["llfree::Error"]["variants"] if v["name"] == "Memory"][0]
+    bad = 0
+    n = 0
+    for rn in ps.return_nodes():
+        env = ps.term_env_of(rn)
+        if ps.ret_discr(rn) == 0:
+            continue
+        n += 1
+        if ps.ret_discr(rn) is None:
+            # the result of a call that writes the return place directly: it has to be the global search
+            writers = [wb for wb, wt in b.calls() if wt["dest"]["l"] == 0 and not wt["dest"].get("p")]
+            if writers == [glob[0]]:
+                continue
+        if env.get(("c", glob[0])) is None and ps.block_of(rn) != glob[0]:
+            # allowed: the near search ended with an error other than Memory, which is passed on (`r => return r`)
+            passed_on = False
+            for nb, nt in b.calls_to(SEARCH_BEST):
+                if nb == glob[0] or nt["dest"].get("p"):
+                    continue
+                if env.get(("c", nb)) == 1 and (mem in env.get(("nd", nt["dest"]["l"], ("as1", ".0")), ())
+                                                  or env.get(("d", 0, ("as1", ".0"))) != mem):
+                    # the returned error is the near search's own (a freshly built Err(Error::Memory) has a known payload)
+                    passed_on = True
+            if not passed_on:
+                bad += 1
+    rep.check(bad == 0 and n > 0 or (n == 0), rule, "search_and_reserve|fails-after-global-search",
+              "every failing return comes after the search over all trees",
+              "search_and_reserve can report failure on %d path(s) without having searched all trees: trees outside the near window "
+              "(or not acceptable to the near filter) are never tried" % bad, b.span)
+
+
 def r_getat(rep, prog):
     rule = "R-GETAT-FALLTHROUGH"
     rep.rule(rule, "get_at: every path on which the local attempt is absent or failed reaches steal_global(frame.as_tree(), class, order, Some(frame)); "
@@ -599,6 +647,7 @@ def run(rep, programs):
     r_drain_total(rep, prog)
     r_global_search(rep, prog)
     r_getat(rep, prog)
+    r_reserve_fallthrough(rep, prog)
     # failed attempts give back what they took from the tree counters: otherwise free frames become invisible to the searches
     from props import c02
     c02.r_undo(rep, prog)
@@ -608,3 +657,5 @@ def run(rep, programs):
     # the candidates the global search cached are all tried until one gives a non-Memory result
     from props import c16
     c16.r_best_first(rep, prog)
+    from props import c15
+    c15.r_reserve_before_lower(rep, prog)    # a targeted request hands its frame to Lower::get and charges that frame's tree
